@@ -231,6 +231,7 @@ def run(ctx):
     d = tempfile.mkdtemp(prefix="c17.", dir=str(CACHE))
     traces, tmeta = [], []
     found = False
+    harness_errs = 0
     try:
         plans = fault_plans(ctx, d)
         if ctx.tier == "quick":
@@ -276,6 +277,11 @@ def run(ctx):
         for i, plan in enumerate(plans):
             name, cls, argv, stdin, expect, mode = plan
             st, out, err, tr, sched = futs[i].result()
+            if st == "harness-error":   # the binary could not be started (e.g. build cache evicted mid-run): not an observation of mlr
+                if not harness_errs:
+                    ctx.violation({"broken": "harness-error: could not run the binary", "plan": name, "detail": err[-300:].decode("latin1")}, found_input=False)
+                harness_errs += 1
+                continue
             ctx.count((name, sched)); ctx.dist(cls.split(":")[0])
             kind = classify_run(st, err)
             if i < 3 or i % 97 == 0:
